@@ -113,7 +113,8 @@ Lemma same_set_nsd s c : same_ctx s (set_nsd c s). Proof. repeat split. Qed.
 Lemma same_set_frames s c : same_ctx s (set_frames c s). Proof. repeat split. Qed.
 Lemma same_set_heap s c : same_ctx s (set_heap c s). Proof. repeat split. Qed.
 Lemma same_set_scr s c : same_ctx s (set_scr c s). Proof. repeat split. Qed.
-#[global] Hint Resolve same_refl same_set_g same_set_cns same_set_nsd same_set_frames same_set_heap same_set_scr : same.
+Lemma same_set_loaded s c : same_ctx s (set_loaded c s). Proof. repeat split. Qed.
+#[global] Hint Resolve same_refl same_set_g same_set_cns same_set_nsd same_set_frames same_set_heap same_set_scr same_set_loaded : same.
 
 (** functions of the form [fun s => match .. with .. => (r, s) | .. => m s end] *)
 Ltac split_state H :=
@@ -492,9 +493,9 @@ Proof.
   - apply ssound_of_sound. apply sound_bind; [apply sound_load_var|intros old].
     apply sound_bind; [apply sound_eval_plain; assumption|intros v].
     apply sound_bind; [apply sound_inplace_add|intros; apply sound_store_var_plain; assumption].
-  - apply ssound_of_sound. destruct (mod_get _ _); [apply sound_store_var_plain; assumption|apply sound_raise].
-  - apply ssound_of_sound. destruct (mod_get _ _); [|apply sound_raise].
-    destruct (ns_get _ _); [apply sound_store_var_plain; assumption|apply sound_raise].
+  - apply ssound_of_sound. apply sound_bind; [pure_sound|intros; apply sound_store_var].
+  - apply ssound_of_sound. apply sound_bind; [pure_sound|intros; apply sound_store_var].
+  - apply ssound_of_sound. apply sound_bind; [pure_sound|intros; apply sound_store_var].
   - apply ssound_of_sound. apply sound_bind; [apply sound_alloc|intros; apply sound_store_var_plain; assumption].
   - apply ssound_of_sound. apply sound_bind; [apply sound_modify; auto with same|intros _].
     apply sound_bind; [apply sound_class_body; intros; apply sound_eval_plain; assumption|intros _].
